@@ -130,7 +130,36 @@ func c07Collect(c *Ctx, p *Prog, m *Model) {
 		return out
 	}
 	lattrsR, _ := p.ConstInt(p.Slog, "LattrsR")
-	flagAtom := func(cond ssa.Value) bool {
+	var flagAtom func(cond ssa.Value) bool
+	flagAtom = func(cond ssa.Value) bool {
+		// the flag sampled once by a caller and handed down as a boolean parameter: every static call site passes
+		// the flag test itself or (recursion) the parameter on
+		if prm, isPrm := cond.(*ssa.Parameter); isPrm {
+			fn := prm.Parent()
+			idx := -1
+			for i, q := range fn.Params {
+				if q == prm {
+					idx = i
+				}
+			}
+			sites := p.staticCallers()[fn]
+			if idx < 0 || len(sites) == 0 || p.usedAsValue()[fn] || (fn.Object() != nil && fn.Object().Exported()) {
+				return false
+			}
+			for _, cs := range sites {
+				if idx >= len(cs.Common().Args) {
+					return false
+				}
+				a := cs.Common().Args[idx]
+				if a == ssa.Value(prm) {
+					continue
+				}
+				if _, again := a.(*ssa.Parameter); again || !flagAtom(a) {
+					return false
+				}
+			}
+			return true
+		}
 		call, ok := cond.(*ssa.Call)
 		if !ok {
 			return false
